@@ -417,7 +417,9 @@ def run(ctx):
         'the same-function theorems are per radius (one column); the conversions act on columns independently '
         '(matrix product), which the correspondence exercises with 1..7 radii',
         'numpy.linalg.inv of the Legendre coefficient matrix is modelled by the exact rational inverse (tolerance 2^-30)',
-        'mirror TB with odd orders (sign change of odd terms), weight scaling and rmax prefix are swept numerically only; '
-        'mirror LR (both parities), mirror TB (even), zero-weight pixels, origin spellings are theorems',
+        'mirror LR (both parities), mirror TB (both parities: C15_mirror_tb, odd coefficients change sign), weight scaling '
+        '(C15_weights_scale), zero-weight pixels and origin spellings are theorems on the executable model; the sign/scale '
+        'theorems are for N <= 3 angular terms at radii with non-zero Hankel determinant; rmax prefix is a theorem for the '
+        'nearest method with even orders (C15_rmax_prefix_partial), swept numerically for linear / odd orders',
         'well-conditioned radii: Hankel condition number <= 1e8',
     ]
